@@ -9,6 +9,7 @@ import (
 	"strconv"
 	"strings"
 	"sync"
+	"time"
 
 	"github.com/dave/jennifer/jen"
 
@@ -49,6 +50,18 @@ var c16Keys = []c16Kind{
 		return jen.Id("K").Values(jen.Dict{c16K(jen.Id("A")): jen.Id("f0"), c16K(jen.Id("B")): jen.Qual("b/f", "R")})
 	}, "K{A:f0,B:@<b/f>.R}", false},
 	{"Id(z)", func() jen.Code { return jen.Id("z") }, "z", false},
+	// keys computed by a callback from a cursor that moves on straight after the constructing call
+	{"LitFunc(cursor=k1)", func() jen.Code { return c16Cursor("k1") }, `"k1"`, false},
+	{"LitFunc(cursor=k2)", func() jen.Code { return c16Cursor("k2") }, `"k2"`, false},
+}
+
+var c16CursorValue string
+
+func c16Cursor(v string) jen.Code {
+	c16CursorValue = v
+	st := jen.LitFunc(func() interface{} { return c16CursorValue })
+	c16CursorValue = "cursor moved on"
+	return st
 }
 
 var c16Vals = []c16Kind{
@@ -119,8 +132,9 @@ func c16Render(d c16Dict, ctl *env.Controller) jh.Outcome { return c16RenderVari
 // c16Variants: 0 = the Dict alone in a fresh File; 1 = the qualified paths were made anonymous
 // imports before; 2 = another Dict comes first in the same File and the File is rendered twice
 // (the second output is judged); 3 = the Dict handed to ValuesFunc through g.Add; 4 = the Dict wrapped
-// in a statement, Values(Add(dict)).
-const c16Variants = 5
+// in a statement, Values(Add(dict)); 5 = two other packages of the same name were referenced before (the
+// File has handed out numbered names already).
+const c16Variants = 6
 
 func c16RenderVariant(d c16Dict, ctl *env.Controller, variant int) jh.Outcome {
 	if ctl != nil {
@@ -147,6 +161,9 @@ func c16RenderVariant(d c16Dict, ctl *env.Controller, variant int) jh.Outcome {
 			ctl.Key(k2)
 		}
 		f.Var().Id("y").Op("=").Id("U").Values(jen.Dict{k1: jen.Lit(0), k2: jen.Id("T0")})
+	}
+	if variant == 5 {
+		f.Var().Id("_").Op("=").List(jen.Qual("p/f", "E"), jen.Qual("q/f", "E"))
 	}
 	switch variant {
 	case 3:
@@ -315,7 +332,7 @@ func c16Space(tier ev.Tier) []c16Dict {
 	if tier == ev.Thorough {
 		ds = c16All(4, 9, 6)
 		ds = append(ds, c16All(5, 6, 3)...)
-		ds = append(ds, c16All(3, len(c16Keys), len(c16Vals))...)
+		ds = append(ds, c16All(3, 11, 8)...) // the kinds added later take part through c16Over below
 	} else {
 		ds = c16All(3, 9, 6)
 		ds = append(ds, c16All(4, 7, 4)...)
@@ -327,6 +344,7 @@ func c16Space(tier ev.Tier) []c16Dict {
 	// nested Dicts whose key order depends on import names settled by the enclosing Dict; values
 	// that contain comment markers inside string literals
 	ds = append(ds, c16Over(3, []int{1, 3, 4, 11}, []int{0, 8, 9, 10})...)
+	ds = append(ds, c16Over(3, []int{0, 3, 12, 13}, []int{0, 2})...)
 	return ds
 }
 
@@ -337,9 +355,14 @@ func c16Explore(tier ev.Tier, shard, n int) c16Result {
 	if tier == ev.Thorough {
 		dev = 2
 	}
+	deadline := time.Now().Add(35 * time.Minute)
 	for i, d := range c16Space(tier) {
 		if i%n != shard {
 			continue
+		}
+		if time.Now().After(deadline) {
+			res.Complete = false // the parent reports the run as not exhaustive
+			break
 		}
 		res.Dicts++
 		nv := c16Variants
@@ -348,6 +371,9 @@ func c16Explore(tier ev.Tier, shard, n int) c16Result {
 		}
 		for variant := 0; variant < nv; variant++ {
 			variant := variant
+			if variant >= 3 && (len(d.Pairs) > 3 || tier != ev.Thorough && len(d.Pairs) > 2) {
+				continue // the wrapped-Dict and pre-collision variants: Dicts of up to 2 (thorough: 3) pairs
+			}
 			outputs := map[string][]int{}
 			var firstBad string
 			st := explore.Explore(explore.Options{MaxDev: dev, Workers: 1}, func(c *explore.Ctx) {
@@ -550,6 +576,9 @@ func runC16(r *ev.Recorder) {
 		}
 		for k, n := range res.Outcomes {
 			classes[k] += n
+		}
+		if !res.Complete {
+			r.NotExhaustive(fmt.Sprintf("shard %d stopped at its 35-minute deadline", si))
 		}
 	}
 	r.Note("states", total)
